@@ -1,4 +1,6 @@
-import RichModel.Model.AnsiRender
+import RichModel.Model.AnsiPrint
+import RichModel.Model.Cells
+import RichModel.Gen.CellWidths
 import RichModel.Drv.Proto
 /-
 Driver handlers for property C03 (the ANSI stream means what the styled segments say).
@@ -18,12 +20,16 @@ Every request is a *history* over shared `Style` objects (the `_ansi` cache is s
     R@cfg@n#seg;seg…        console._render_buffer(segs);  cfg = four characters `cs no_color is_terminal legacy_windows`,
                             cs: 0 None 1 standard 2 256 3 truecolor 4 windows;  seg = `text,style,control`, style `-`|index
     S@i@cs@lw@text          heap[i].render(text, color_system=cs, legacy_windows=lw)
+    P@cfg@width@csoft@style@crop@soft@n#seg;…   console.print(<renderables rendering to segs>, style=heap[style], crop=…, soft_wrap=…)
+                            on a console of that width and `soft_wrap` (`Model/AnsiPrint.lean`): style `-`|index, soft `-`|0|1
 * answers: one item per writing op, joined by `~`; an exception ends the history with `err:<PyClass>`.
     c03_chars     the characters written, link ids masked as `id=*`
     c03_toks      the tokens (normalised): `T`string | `G`p.p.p | `L`params`/`uri, joined by `;`
     c03_cells     the independent interpreter run on those tokens: runs `string|mask|fg|bg|link` joined by `;`,
                   plus `!` and the final terminal state `mask|fg|bg|link`
     c03_expected  what the specification `expectedCells` says the terminal must show, same run format
+    c03_pbuf      for a `P` op: the segments `print` appended to `_buffer`, `text,control,style` joined by `;` with the
+                  style as a *value* (`-` | the style format above); `-` for the other writing ops
   A dangling index makes the whole request `unmodelled`.
 * c03_tokenize TAB string  the terminal's tokenizer (`AnsiTerm.tokenize`) on an arbitrary character string
 * c03_interp TAB tokens   the interpreter alone on an arbitrary token list (same token / run formats)
@@ -110,8 +116,29 @@ def decOp (s : String) : Option Op :=
     pure (.styleRender i (decStr t) cs (decBool lw))
   | _ => none
 
-def decOps (s : String) : Option (List Op) :=
-  if s.isEmpty then some [] else (s.splitOn "~").mapM decOp
+def decOptBool (s : String) : Option (Option Bool) :=
+  match s with
+  | "-" => some none
+  | "0" => some (some false)
+  | "1" => some (some true)
+  | _ => none
+
+def decPOp (s : String) : Option POp :=
+  match s.splitOn "@" with
+  | ["P", cfg, width, csoft, style, crop, soft, segs] => do
+    let cfg ← decConfig cfg
+    let width ← width.toNat?
+    let style ← if style == "-" then some none else style.toNat?.map some
+    let soft ← decOptBool soft
+    let segs ← decSegs segs
+    pure (.print cfg { width := width, softWrap := decBool csoft } { segs := segs, style := style, crop := decBool crop, softWrap := soft })
+  | _ => (decOp s).map .op
+
+def decOps (s : String) : Option (List POp) :=
+  if s.isEmpty then some [] else (s.splitOn "~").mapM decPOp
+
+/-- `cell_len`'s per-character width: rich's own table (translated on every run). -/
+def cw : Char → Nat := charWidthT Gen.cellWidths
 
 structure Flags where
   v : RVariant
@@ -184,26 +211,61 @@ def encInterp (ts : List Tok) : String :=
   let r := interpFrom {} ts
   encCells r.2 ++ "!" ++ encLook r.1.rend r.1.link
 
+def encOptS : Option (List Char) → String
+  | none => "-"
+  | some l => "=" ++ encStr l
+
+def encType : ColorType → String
+  | .default => "0" | .standard => "1" | .eightBit => "2" | .truecolor => "3" | .windows => "4"
+
+def encColor : Option Color → String
+  | none => "-"
+  | some c => encStr c.name ++ "/" ++ encType c.type ++ "/" ++ (match c.number with | none => "-" | some n => toString n) ++ "/" ++
+      (match c.triplet with | none => "-" | some t => toString t.red ++ "." ++ toString t.green ++ "." ++ toString t.blue)
+
+/-- attributes are reported masked by `set_attributes`, as the harness reads them off the public properties -/
+def encStyleV (s : Style) : String :=
+  "|".intercalate [encColor s.color, encColor s.bgcolor, toString (s.attributes &&& s.setAttributes), toString s.setAttributes,
+    encOptS s.link, if s.isNull then "1" else "0"]
+
+def encBufSeg (heap : Heap) (seg : Seg) : String :=
+  encStr seg.text ++ "," ++ (if seg.control then "1" else "0") ++ "," ++
+    (match segStyle heap seg with | none => "-" | some st => encStyleV st)
+
+def encBuf (heap : Heap) (segs : List Seg) : String :=
+  toString segs.length ++ "#" ++ ";".intercalate (segs.map (encBufSeg heap))
+
 /-! ### the history runner with a per-op view -/
 
 /-- Like `runOps`, but hands every writing op its tokens together with the heap *before* the op
 (needed by `expectedCells`) and the op itself. -/
-def runView (f : Flags) : Heap → List Op → List (Except RenderErr (Heap × Op × List Tok))
+def runView (f : Flags) : Heap → List POp → List (Except RenderErr (Heap × POp × List Tok))
   | _, [] => []
   | heap, op :: rest =>
-    match stepOp f.v f.cc richPalettes heap op with
+    match stepPOp f.v f.cc richPalettes cw heap op with
     | .error e => [.error e]
     | .ok (heap', none) => runView f heap' rest
     | .ok (heap', some toks) => .ok (heap, op, toks) :: runView f heap' rest
 
-def expectedOf (f : Flags) (heap : Heap) : Op → List Cell
-  | .render cfg segs => expectedCells f.cc richPalettes cfg heap segs
-  | .styleRender i text cs lw =>
+def expectedOf (f : Flags) (heap : Heap) : POp → List Cell
+  | .op (.render cfg segs) => expectedCells f.cc richPalettes cfg heap segs
+  | .op (.styleRender i text cs lw) =>
     let e := expected f.cc richPalettes ⟨cs, false, true, lw⟩ ((heap[i]?).map (·.style))
     text.map fun c => ⟨c, e.1, e.2⟩
+  | .print cfg env p =>
+    match printBuffer cw env heap p with
+    | .ok (buffer, heap1) => expectedCells f.cc richPalettes cfg heap1 buffer
+    | .error _ => []
   | _ => []
 
-def history (view : Flags → Heap → Op → List Tok → String) : List String → String
+def bufOf (heap : Heap) : POp → String
+  | .print _ env p =>
+    match printBuffer cw env heap p with
+    | .ok (buffer, heap1) => "ok " ++ encBuf heap1 buffer
+    | .error _ => "unmodelled"
+  | _ => "-"
+
+def history (view : Flags → Heap → POp → List Tok → String) : List String → String
   | [flags, ops] =>
     match decFlags flags, decOps ops with
     | some f, some ops =>
@@ -221,6 +283,7 @@ def handlers : List (String × (List String → String)) := [
   ("c03_toks", history fun _ _ _ toks => "ok " ++ encToks toks),
   ("c03_cells", history fun _ _ _ toks => "ok " ++ encInterp toks),
   ("c03_expected", history fun f heap op _ => "ok " ++ encCells (expectedOf f heap op)),
+  ("c03_pbuf", history fun _ heap op _ => bufOf heap op),
   ("c03_tokenize", fun a => match a with
     | [cs] => encToks (tokenize (decStr cs))
     | _ => "bad-args"),
